@@ -48,6 +48,14 @@ OpsStale == [t \in Threads |->
     [] OTHER -> <<>>]
 
 Call(t) == opi[t] < Len(Ops[t]) /\ Begin(t, Ops[t][opi[t] + 1])
+\* thorough tier: the exit race with a second exiting actor (the monitor) and a scope monitor
+OpsBig == [t \in Threads |->
+  CASE t = "t1" -> <<J("d", "g1", <<"a1", "a1", "a2">>), L("d", "g1", <<"a2">>)>>
+    [] t = "t2" -> <<X("a1")>>
+    [] t = "t3" -> <<M("g1", "a3"), J("d", "g1", <<"a1">>)>>
+    [] t = "t4" -> <<SM("d", "a3"), X("a3")>>
+    [] OTHER -> <<>>]
+
 MCNext == \E t \in Threads : Call(t) \/ Step(t)
 MCSpec == Init /\ [][MCNext]_vars
 
